@@ -377,7 +377,11 @@ ClaimEdge(o, i, b, e) ==
       \* takeover enabled and a strictly higher priority): "no preemption" holds, the leader stays
       noPre == \A j \in Ids \ {i} : ~(o.I[j].present /\ o.I[j].started /\ o.I[j].cfg.tk /\ o.I[j].cfg.prio > x.cfg.prio)
       vf2 == IF falling /\ ~inStop /\ ~inVod /\ o.tk /\ noPre /\ ~o.faulty /\ ~o.slow /\ ~o.outside /\ ~o.hc /\ ~o.connEv /\ ~o.hard
-             THEN {V("C07", "leader_demoted_without_entitled_preemptor:" \o x.note, i, e)} ELSE {}
+             THEN {V("C07", "leader_demoted_without_entitled_preemptor:" \o x.note, i, e)} \cup
+                  \* C10: "... and leadership then stays with the highest-priority instance" (a takeover-enabled leader above all others)
+                  (IF x.cfg.tk /\ \A j \in Ids \ {i} : o.I[j].present => o.I[j].cfg.prio < x.cfg.prio
+                   THEN {V("C10", "highest_priority_leader_demoted:" \o x.note, i, e)} ELSE {})
+             ELSE {}
       vg == IF falling /\ x.note = "grace_demote" /\ (x.lastDisc < 0 \/ e.t < x.lastDisc + x.cfg.grace)
             THEN {V("C11", "grace_demotion_before_grace_period_elapsed", i, e)} ELSE {}
       \* "... if no reconnect notification arrived": the latest notification before the demotion was a reconnect
